@@ -42,6 +42,10 @@ class World:
                 if c not in self.pool:
                     self.pool.append(c)
         self.ids = assign_ids([(n, i) for (n, i, _c) in archs])
+        for q in queries:
+            # the specification-level oracle identifies the written entity through an entity parameter
+            if any(p[0] in ('comp', 'oneof') and p[2] for p in q):
+                assert any(p[0].startswith('ent') for p in q), q
 
     def arch_index(self, name):
         return [a[0] for a in self.archs].index(name)
@@ -59,7 +63,7 @@ W1 = World(
     [
         [('ent_any',), ('dir_any',)],
         [('ent_wild',), ('comp', 'C0', True)],
-        [('comp', 'C1', True), ('comp', 'C2', False), ('dir_wild',)],
+        [('comp', 'C1', True), ('comp', 'C2', False), ('dir_wild',), ('ent_wild',)],
         [('ent', 'A1'), ('comp', 'C0', False), ('comp', 'C1', True)],
         [('oneof', ['C3', 'Z'], True), ('ent_any',)],
         [('dir', 'A2'), ('comp', 'Z', False)],
@@ -89,7 +93,7 @@ W3 = World(
     [
         [('ent_any',), ('dir_any',)],
         [('comp', 'C24', True), ('ent_wild',)],
-        [('comp', 'C39', True), ('comp', 'C8', False), ('dir_wild',)],
+        [('comp', 'C39', True), ('comp', 'C8', False), ('dir_wild',), ('ent_any',)],
     ],
     feature='comps32')
 
